@@ -82,7 +82,7 @@ CAST_OPS = ["add_broadcast", "multiply_out", "multiply3", "power3", "aspolynomia
             "from_data", "dtype_request", "aspolynomial", "aspolynomial_poly", "from_attributes",
             "from_attributes_mixed", "dict_mixed", "variable", "symbols", "astype", "add", "subtract",
             "multiply", "power", "getitem", "reshape", "transpose", "concatenate", "stack", "where",
-            "scalar_from_data", "power_exact"]
+            "scalar_from_data", "power_exact", "update_through_view"]
 
 
 def data_for(rng, dtype, shape):
@@ -340,6 +340,27 @@ def run_cast_case(case, ctx):
                     if not check_terms(ctx, facts, case, got, {(0,): cast(a, T), (1,): cast(a, T)},
                                        T, f"aspolynomial(poly, names={label}, dtype=T)"):
                         break
+            elif op == "update_through_view":
+                # read the coefficients once, then change the polynomial through another object
+                # that shares its memory (a transposed / reshaped view as copyto destination):
+                # every later cast and operation sees the new values
+                if a.ndim < 1 or S == "bool":
+                    return
+                src = two_term(a)
+                src.coefficients  # noqa: B018 (first read)
+                src + 0
+                newvals = (a[::-1] if a.ndim else a).copy()
+                repl = two_term(newvals)
+                view = src.T if a.ndim >= 2 else src.reshape(-1)
+                rview = repl.T if a.ndim >= 2 else repl.reshape(-1)
+                numpoly.copyto(view, rview)
+                ctx.count("updates_through_views")
+                if not check_terms(ctx, facts, case, src.astype(T),
+                                   {(0,): cast(newvals, T), (1,): cast(newvals, T)}, T,
+                                   "astype(T) after copyto(view of p, ...)"):
+                    return
+                check_terms(ctx, facts, case, numpoly.polynomial(src),
+                            {(0,): newvals, (1,): newvals}, S, "polynomial(p) after copyto(view of p, ...)")
             elif op == "power_exact":
                 # powers are products in the coefficient dtype itself: no detour through a wider
                 # (or a floating) type. Values that a detour would round: integers beyond 2**53,
